@@ -1,27 +1,31 @@
-//! C40 — Working-copy changes are never lost by commands.
+//! C41 — Undo and restore return the repository to the earlier state.
 //!
 //! Explicit-state search over sequences of real `jj` commands (the binary built from /repo,
-//! `$JJV_BIN`) interleaved with file edits, in one repository with one or two workspaces.
-//! A state is a directory tree on tmpfs (both workspaces + the repo); a transition is "copy
-//! the parent's directory, apply the edits of the action, run one `jj` command". Every file
-//! content the harness writes is a unique witness (`W:<path>@<ws>#<n>:xxxx`, the length grows
-//! with n so no two witnesses of one history have the same size).
+//! `$JJV_BIN`) in a scratch repository (git backend, one or two workspaces). A state is a
+//! directory tree on tmpfs; a transition is "copy the parent's directory, optionally dirty the
+//! working copies, run one `jj` command". The alphabet mixes ordinary commands (new, describe,
+//! commit, squash, abandon, edit, bookmark set/delete, tag set) with `undo`, `redo`,
+//! `op restore @-…` and `op revert @…`, so undo/redo/restore are applied at every reachable
+//! state, after each other, and with a dirty working copy (the command then first snapshots).
 //!
-//! Oracle (evaluated after every command, on every transition): the ghost set G holds every
-//! (workspace, path, witness content) that was on disk at the start of some command of the
-//! history. Every element of G must be
-//!   * contained in the tree of the working-copy commit of some workspace in the view of some
-//!     operation reachable from the current operation heads (walked read-only through jj-lib:
-//!     no snapshot, no head merge; for a conflicted path every term counts), or
-//!   * still on disk, same workspace, same path, same bytes.
-//! Otherwise the command destroyed a file state that no operation recorded.
-//!
-//! Deviations from DESIGN.md §4 C40 (see the final report of the author): the clause "a
-//! command that refuses to run leaves the repo unchanged" is not in the statement and is only
-//! counted; edits are folded into the command actions as "dirty patterns" (P0 none, P1 fresh
-//! `f` in every workspace, P2 delete `f` here + fresh `g` elsewhere, P3 new untracked file here
-//! + fresh `f` elsewhere) because a CLI transition costs 0.2–2 s on this machine, so the
-//! budget is counted in commands; the search is wall-clock capped and says so when it was cut.
+//! Oracle, on every successful undo-family transition, through jj-lib (read-only): the view of
+//! the command's own operation (visible heads, local bookmarks, local tags, remote views,
+//! working-copy commit ids) must equal the view of the operation named by an independent
+//! text-editor model of undo/redo kept by the harness:
+//!   * ordinary operations (including the command's own snapshot of a dirty working copy) are
+//!     pushed on `done` and clear `undone`;
+//!   * `undo` pops t from `done`, the new view must equal the view of t's parent operation
+//!     ("equal to those before it"), t goes to `undone`;
+//!   * `redo` pops r from `undone`, the new view must equal r's view ("reinstates the undone
+//!     state"); a redo that succeeds with nothing undone is a violation;
+//!   * `op restore X`: the new view must equal X's view;
+//!   * `op revert X` is judged only where the statement determines the result: when the view did
+//!     not change since X (always the case for X = `@`) it must equal the view of X's parent.
+//! The one permitted difference: an empty, description-less, unreferenced head on top of an
+//! immutable commit as working-copy commit of the acting workspace is identified with that
+//! immutable commit (both views are normalised the same way; counted in the evidence).
+
+#![allow(dead_code)]
 
 use std::collections::BTreeMap;
 use std::collections::BTreeSet;
@@ -520,6 +524,7 @@ fn workspace_state(ws_dir: &Path, ins: &Inspect) -> (String, Option<OperationId>
     (st.into(), Some(wc_op))
 }
 
+
 // ---------------------------------------------------------------------------------------------
 // actions
 // ---------------------------------------------------------------------------------------------
@@ -527,67 +532,55 @@ fn workspace_state(ws_dir: &Path, ins: &Inspect) -> (String, Option<OperationId>
 #[derive(Clone, Copy, Debug, PartialEq, Eq, Hash, Serialize, Deserialize)]
 enum Cmd {
     New,
-    EditPrev,
     Describe,
     Commit,
     Squash,
-    Split,
     Abandon,
-    Rebase,
-    Restore,
+    EditPrev,
+    BookmarkSet,
+    BookmarkDelete,
+    TagSet,
+    /// tag the other workspace's working-copy commit (makes it immutable)
+    XTag,
     Undo,
-    OpRestore2,
-    WsAdd,
-    UpdateStale,
-    St,
-    AtOpNew,
-    IgnoreWcAbandon,
-    XDescribe,
-    XAbandon,
-    XEdit,
-    XSquash,
+    Redo,
+    OpRestore(u8),
+    OpRevert(u8),
 }
 
-const CORE: [Cmd; 9] = [
-    Cmd::New,
-    Cmd::Describe,
-    Cmd::Squash,
-    Cmd::Abandon,
-    Cmd::Undo,
-    Cmd::UpdateStale,
-    Cmd::AtOpNew,
-    Cmd::XEdit,
-    Cmd::XAbandon,
-];
+impl Cmd {
+    fn undo_family(self) -> bool {
+        matches!(self, Cmd::Undo | Cmd::Redo | Cmd::OpRestore(_) | Cmd::OpRevert(_))
+    }
+}
 
-const FULL: [Cmd; 20] = [
+const BASE: [Cmd; 9] = [
     Cmd::New,
-    Cmd::EditPrev,
     Cmd::Describe,
     Cmd::Commit,
     Cmd::Squash,
-    Cmd::Split,
     Cmd::Abandon,
-    Cmd::Rebase,
-    Cmd::Restore,
+    Cmd::EditPrev,
+    Cmd::BookmarkSet,
+    Cmd::BookmarkDelete,
+    Cmd::TagSet,
+];
+const UNDO_CORE: [Cmd; 6] =
+    [Cmd::Undo, Cmd::Redo, Cmd::OpRestore(1), Cmd::OpRestore(3), Cmd::OpRevert(0), Cmd::OpRevert(1)];
+const UNDO_FULL: [Cmd; 8] = [
     Cmd::Undo,
-    Cmd::OpRestore2,
-    Cmd::WsAdd,
-    Cmd::UpdateStale,
-    Cmd::St,
-    Cmd::AtOpNew,
-    Cmd::IgnoreWcAbandon,
-    Cmd::XDescribe,
-    Cmd::XAbandon,
-    Cmd::XEdit,
-    Cmd::XSquash,
+    Cmd::Redo,
+    Cmd::OpRestore(1),
+    Cmd::OpRestore(2),
+    Cmd::OpRestore(3),
+    Cmd::OpRevert(0),
+    Cmd::OpRevert(1),
+    Cmd::OpRevert(2),
 ];
 
 #[derive(Clone, Debug, PartialEq, Eq, Hash)]
 enum Act {
-    /// choose the phase (prepared root + alphabet)
     Init(usize),
-    /// apply dirty pattern `dirty`, then run `cmd` in workspace `ws` (0 = default in d/, 1 = s in s/)
     Step { dirty: u8, ws: u8, cmd: Cmd },
 }
 
@@ -598,141 +591,231 @@ const WS_NAME: [&str; 2] = ["default", "s"];
 struct LitEdit {
     ws: String,
     path: String,
-    /// None = delete
     content: Option<String>,
 }
 
 /// A literal, self-contained step: edits, then one jj command.
 #[derive(Clone, Debug, Serialize, Deserialize)]
 struct LitStep {
-    /// logical clock value (JJ_TIMESTAMP / JJ_OP_TIMESTAMP / JJ_RANDOMNESS_SEED)
     n: u32,
-    /// directory (relative to the state directory) the command runs in
     cwd: String,
     edits: Vec<LitEdit>,
     args: Vec<String>,
-    /// command class for signatures and statistics
+    /// what the oracle has to judge: "undo", "redo", "op-restore:<k>", "op-revert:<k>", or "" (nothing)
+    judge: String,
     class: String,
-    config: usize,
-}
-
-fn witness(path: &str, ws: &str, n: u32) -> String {
-    format!("W:{path}@{ws}#{n}:{}\n", "x".repeat(n as usize))
 }
 
 fn s(v: &[&str]) -> Vec<String> {
     v.iter().map(|x| x.to_string()).collect()
 }
 
-/// Literal preparation script of a root. Root 0 ("S"): one workspace, commits first(f0,g0) <-
-/// second(f1) and first <- @ (empty; the last command changed `f` on disk). Root 1 ("T"): S +
-/// a second workspace `s`. Root 2 ("U"): T + `s` made stale (a command in `default` squashed a
-/// change of `f` into s@).
-fn prep_steps(root: usize, config: usize) -> Vec<LitStep> {
+fn op_expr(k: u8) -> String {
+    format!("@{}", "-".repeat(k as usize))
+}
+
+/// Roots: 0 "R" one workspace, a few operations (describe, new, bookmark, new);
+/// 1 "RU" = R + undo; 2 "RUU" = R + undo + undo; 3 "T" = R + second workspace `s` whose
+/// working-copy commit was tagged from `default` (so it is immutable) + one more operation.
+fn prep_steps(root: usize) -> Vec<LitStep> {
     let lit = |n: u32, cwd: &str, edits: Vec<LitEdit>, args: &[&str]| LitStep {
         n,
         cwd: cwd.into(),
         edits,
         args: s(args),
+        judge: String::new(),
         class: "prep".into(),
-        config,
     };
     let w = |path: &str, c: &str| LitEdit { ws: "d".into(), path: path.into(), content: Some(c.into()) };
     let mut v = vec![
         lit(1, ".", vec![], &["git", "init", "--no-colocate", "d"]),
         lit(2, "d", vec![w("f", "f0\n"), w("g", "g0\n")], &["describe", "-m", "first"]),
         lit(3, "d", vec![], &["new", "-m", "second"]),
-        lit(4, "d", vec![w("f", "f1\n")], &["new", "@-"]),
+        lit(4, "d", vec![w("f", "f1\n")], &["bookmark", "set", "bk", "-r", "@"]),
+        lit(5, "d", vec![], &["new"]),
     ];
-    if root >= 1 {
-        v.push(lit(5, "d", vec![], &["workspace", "add", "../s"]));
-    }
-    if root >= 2 {
-        v.push(lit(6, "d", vec![w("f", "f2\n")], &["squash", "-u", "--into", "s@"]));
+    match root {
+        1 => v.push(LitStep { judge: "undo".into(), ..lit(6, "d", vec![], &["undo"]) }),
+        2 => {
+            v.push(LitStep { judge: "undo".into(), ..lit(6, "d", vec![], &["undo"]) });
+            v.push(LitStep { judge: "undo".into(), ..lit(7, "d", vec![], &["undo"]) });
+        }
+        3 => {
+            v.push(lit(6, "d", vec![], &["workspace", "add", "../s"]));
+            v.push(lit(7, "d", vec![], &["tag", "set", "x7", "-r", "s@"]));
+            v.push(lit(8, "d", vec![], &["describe", "-m", "third"]));
+        }
+        _ => {}
     }
     v
 }
 
-fn expand(dirty: u8, ws: u8, cmd: Cmd, n: u32, has_s: bool, config: usize) -> LitStep {
+fn root_name(root: usize) -> &'static str {
+    [
+        "R: one workspace, 6 operations",
+        "RU: R + undo",
+        "RUU: R + undo + undo",
+        "T: R + workspace s whose working-copy commit is tagged (immutable) + describe",
+    ][root]
+}
+
+fn expand(dirty: u8, ws: u8, cmd: Cmd, n: u32, has_s: bool) -> LitStep {
     let me = WS_DIR[ws as usize];
     let other_name = WS_NAME[1 - ws as usize];
     let wss: Vec<&str> = if has_s { vec!["d", "s"] } else { vec!["d"] };
     let mut edits = vec![];
-    match dirty {
-        0 => {}
-        1 => {
-            for w in &wss {
-                edits.push(LitEdit { ws: w.to_string(), path: "f".into(), content: Some(witness("f", w, n)) });
-            }
-        }
-        2 => {
-            for w in &wss {
-                if *w == me {
-                    edits.push(LitEdit { ws: w.to_string(), path: "f".into(), content: None });
-                } else {
-                    edits.push(LitEdit { ws: w.to_string(), path: "g".into(), content: Some(witness("g", w, n)) });
-                }
-            }
-        }
-        _ => {
-            for w in &wss {
-                if *w == me {
-                    let p = format!("n{n}");
-                    edits.push(LitEdit { ws: w.to_string(), path: p.clone(), content: Some(witness(&p, w, n)) });
-                } else {
-                    edits.push(LitEdit { ws: w.to_string(), path: "f".into(), content: Some(witness("f", w, n)) });
-                }
-            }
+    if dirty == 1 {
+        for w in &wss {
+            edits.push(LitEdit {
+                ws: w.to_string(),
+                path: "f".into(),
+                content: Some(format!("W:f@{w}#{n}:{}\n", "x".repeat(n as usize))),
+            });
         }
     }
     let other_at = format!("{other_name}@");
-    let args: Vec<String> = match cmd {
-        Cmd::New => s(&["new"]),
-        Cmd::EditPrev => s(&["edit", "@-"]),
-        Cmd::Describe => s(&["describe", "-m", &format!("d{n}")]),
-        Cmd::Commit => s(&["commit", "-m", &format!("c{n}")]),
-        Cmd::Squash => s(&["squash", "-u"]),
-        Cmd::Split => s(&["split", "-m", &format!("s{n}"), "f"]),
-        Cmd::Abandon => s(&["abandon"]),
-        Cmd::Rebase => s(&["rebase", "-r", "@", "-d", "@--"]),
-        Cmd::Restore => s(&["restore"]),
-        Cmd::Undo => s(&["undo"]),
-        Cmd::OpRestore2 => s(&["op", "restore", "@--"]),
-        Cmd::WsAdd => s(&["workspace", "add", "../s"]),
-        Cmd::UpdateStale => s(&["workspace", "update-stale"]),
-        Cmd::St => s(&["st"]),
-        Cmd::AtOpNew => s(&["--at-op", "@-", "new"]),
-        Cmd::IgnoreWcAbandon => s(&["--ignore-working-copy", "abandon"]),
-        Cmd::XDescribe => s(&["describe", "-m", &format!("x{n}"), &other_at]),
-        Cmd::XAbandon => s(&["abandon", &other_at]),
-        Cmd::XEdit => s(&["edit", &other_at]),
-        Cmd::XSquash => s(&["squash", "-u", "--from", &other_at, "--into", "@"]),
+    let (args, judge): (Vec<String>, String) = match cmd {
+        Cmd::New => (s(&["new"]), "".into()),
+        Cmd::Describe => (s(&["describe", "-m", &format!("d{n}")]), "".into()),
+        Cmd::Commit => (s(&["commit", "-m", &format!("c{n}")]), "".into()),
+        Cmd::Squash => (s(&["squash", "-u"]), "".into()),
+        Cmd::Abandon => (s(&["abandon"]), "".into()),
+        Cmd::EditPrev => (s(&["edit", "@-"]), "".into()),
+        Cmd::BookmarkSet => (s(&["bookmark", "set", "bk", "-r", "@", "-B"]), "".into()),
+        Cmd::BookmarkDelete => (s(&["bookmark", "delete", "bk"]), "".into()),
+        Cmd::TagSet => (s(&["tag", "set", &format!("t{n}"), "-r", "@-"]), "".into()),
+        Cmd::XTag => (s(&["tag", "set", &format!("x{n}"), "-r", &other_at]), "".into()),
+        Cmd::Undo => (s(&["undo"]), "undo".into()),
+        Cmd::Redo => (s(&["redo"]), "redo".into()),
+        Cmd::OpRestore(k) => (s(&["op", "restore", &op_expr(k)]), format!("op-restore:{k}")),
+        Cmd::OpRevert(k) => (s(&["op", "revert", &op_expr(k)]), format!("op-revert:{k}")),
     };
-    LitStep { n, cwd: me.to_string(), edits, args, class: format!("{cmd:?}"), config }
+    LitStep { n, cwd: me.to_string(), edits, args, judge, class: format!("{cmd:?}") }
+}
+
+// ---------------------------------------------------------------------------------------------
+// view comparison (reference: plain sets and maps of ids; no jj code involved)
+// ---------------------------------------------------------------------------------------------
+
+impl Inspect {
+    fn root_commit(&self) -> Option<CommitId> {
+        self.commits.iter().find(|(_, c)| c.parents.is_empty()).map(|(id, _)| id.clone())
+    }
+
+    fn ancestors(&self, from: impl IntoIterator<Item = CommitId>) -> BTreeSet<CommitId> {
+        let mut seen = BTreeSet::new();
+        let mut stack: Vec<CommitId> = from.into_iter().collect();
+        while let Some(c) = stack.pop() {
+            if !seen.insert(c.clone()) {
+                continue;
+            }
+            if let Some(d) = self.commits.get(&c) {
+                stack.extend(d.parents.iter().cloned());
+            }
+        }
+        seen
+    }
+
+    /// Default configuration without remotes: immutable = ::(tags()) | root().
+    fn immutable_in(&self, v: &View) -> BTreeSet<CommitId> {
+        let mut from: Vec<CommitId> = v.local_tags.values().flat_map(|t| t.added_ids().cloned()).collect();
+        from.extend(self.root_commit());
+        self.ancestors(from)
+    }
+}
+
+#[derive(Clone, PartialEq, Eq, Debug)]
+struct PlainView {
+    heads: BTreeSet<CommitId>,
+    wcs: BTreeMap<String, CommitId>,
+}
+
+fn plain(v: &View) -> PlainView {
+    PlainView {
+        heads: v.head_ids.iter().cloned().collect(),
+        wcs: v.wc_commit_ids.iter().map(|(k, c)| (k.as_str().to_string(), c.clone())).collect(),
+    }
+}
+
+/// The permitted difference: if the working-copy commit `c` of workspace `w` is an empty,
+/// description-less head with a single immutable parent `p` and nothing else refers to it,
+/// treat the view as if the working copy were at `p` (jj creates such a `c` when a restored
+/// working-copy commit is immutable). Returns the stripped view and whether it stripped.
+fn strip_fresh_wc_child(ins: &Inspect, v: &View, w: &str) -> (PlainView, bool) {
+    let mut pv = plain(v);
+    let Some(c) = pv.wcs.get(w).cloned() else { return (pv, false) };
+    let Some(cd) = ins.commits.get(&c) else { return (pv, false) };
+    if cd.parents.len() != 1 || !cd.desc.is_empty() || !pv.heads.contains(&c) {
+        return (pv, false);
+    }
+    let p = cd.parents[0].clone();
+    let Some(pd) = ins.commits.get(&p) else { return (pv, false) };
+    if pd.tree_ids != cd.tree_ids || !ins.immutable_in(v).contains(&p) {
+        return (pv, false);
+    }
+    let referenced = v.local_bookmarks.values().chain(v.local_tags.values()).any(|t| t.added_ids().any(|id| *id == c))
+        || pv.wcs.iter().any(|(k, id)| k != w && *id == c);
+    if referenced {
+        return (pv, false);
+    }
+    pv.heads.remove(&c);
+    if !ins.ancestors(pv.heads.iter().cloned()).contains(&p) {
+        pv.heads.insert(p.clone());
+    }
+    pv.wcs.insert(w.to_string(), p);
+    (pv, true)
+}
+
+fn short(c: &CommitId) -> String {
+    c.hex()[..10].to_string()
+}
+
+/// Compares the view `new` (after the command, run in workspace `w`) with the view `exp` it
+/// should equal. Returns (field, message) of the first difference, and whether the permitted
+/// difference was needed.
+fn compare_views(ins: &Inspect, new: &View, exp: &View, w: &str) -> (Option<(String, String)>, bool) {
+    if new.local_bookmarks != exp.local_bookmarks {
+        return (Some(("bookmarks".into(), format!("local bookmarks {:?} vs expected {:?}", new.local_bookmarks, exp.local_bookmarks))), false);
+    }
+    if new.local_tags != exp.local_tags {
+        return (Some(("tags".into(), format!("tags {:?} vs expected {:?}", new.local_tags, exp.local_tags))), false);
+    }
+    if new.remote_views != exp.remote_views {
+        return (Some(("remote-bookmarks".into(), "remote views differ".to_string())), false);
+    }
+    let (pn, pe) = (plain(new), plain(exp));
+    if pn == pe {
+        return (None, false);
+    }
+    let (sn, a) = strip_fresh_wc_child(ins, new, w);
+    let (se, b) = strip_fresh_wc_child(ins, exp, w);
+    if (a || b) && sn == se {
+        return (None, true);
+    }
+    let field = if pn.wcs != pe.wcs { "wc" } else { "heads" };
+    let fmt = |p: &PlainView| {
+        format!(
+            "heads {:?} wc {:?}",
+            p.heads.iter().map(short).collect::<Vec<_>>(),
+            p.wcs.iter().map(|(k, c)| format!("{k}={}", short(c))).collect::<Vec<_>>()
+        )
+    };
+    (Some((field.into(), format!("{} vs expected {}", fmt(&pn), fmt(&pe)))), false)
 }
 
 // ---------------------------------------------------------------------------------------------
 // states and the transition function
 // ---------------------------------------------------------------------------------------------
 
-#[derive(Clone, Debug, PartialEq, Eq, PartialOrd, Ord)]
-struct Ghost {
-    ws: String,
-    path: String,
-    content: Vec<u8>,
-    /// clock value of the first command that started with this content on disk
-    since: u32,
-    /// found in the operation log by an earlier oracle evaluation
-    recorded: bool,
-}
-
 struct StateData {
     dir: PathBuf,
     n: u32,
     has_s: bool,
-    ghosts: Vec<Ghost>,
-    /// workspace dir -> state after the last command
-    ws_state: BTreeMap<String, String>,
+    head: Option<OperationId>,
+    /// text-editor model of undo/redo: operations whose effects are currently "done" (oldest first)
+    done: Vec<OperationId>,
+    /// operations that were undone and can be redone (next to redo last)
+    undone: Vec<OperationId>,
     key: String,
 }
 
@@ -741,19 +824,16 @@ struct Stats {
     commands: AtomicU64,
     exit_ok: AtomicU64,
     exit_err: AtomicU64,
-    stale_refusals: AtomicU64,
-    panics: AtomicU64,
-    ghost_checks: AtomicU64,
-    ghosts_recorded: AtomicU64,
-    ghosts_only_on_disk: AtomicU64,
-    /// a witness that was on disk at command start, is gone from the disk after the command
-    /// and was found in the operation log: the command replaced it and had recorded it first
-    overwritten_but_recorded: AtomicU64,
-    acting_ws_stale_before: AtomicU64,
-    other_ws_stale_before: AtomicU64,
-    stale_updates_done: AtomicU64,
-    divergent_ops_merged: AtomicU64,
-    per_class: Mutex<BTreeMap<String, [u64; 4]>>, // [runs, ok, overwritten_but_recorded, became-stale-other]
+    judged: AtomicU64,
+    judged_with_own_snapshot: AtomicU64,
+    permitted_difference_used: AtomicU64,
+    unjudged_revert_of_older_op: AtomicU64,
+    undo_after_undo: AtomicU64,
+    redo_judged: AtomicU64,
+    restored_view_differs_from_current: AtomicU64,
+    expected_failure_and_failed: AtomicU64,
+    model_expected_success_but_failed: AtomicU64,
+    per_class: Mutex<BTreeMap<String, [u64; 4]>>, // runs, exit 0, judged, view really changed
 }
 
 struct StepOutcome {
@@ -767,14 +847,18 @@ fn ws_dirs(dir: &Path) -> Vec<&'static str> {
     WS_DIR.iter().copied().filter(|w| dir.join(w).join(".jj").exists()).collect()
 }
 
-/// Executes one literal step in `dir` (in place) starting from the bookkeeping of `parent`.
-fn exec_step(env: &Env, dir: &Path, parent_ghosts: &[Ghost], parent_ws_state: &BTreeMap<String, String>, lit: &LitStep, stats: &Stats) -> StepOutcome {
-    let mut ghosts: Vec<Ghost> = parent_ghosts.to_vec();
+fn view_eq_plainly(a: &View, b: &View) -> bool {
+    a.head_ids == b.head_ids
+        && a.local_bookmarks == b.local_bookmarks
+        && a.local_tags == b.local_tags
+        && a.remote_views == b.remote_views
+        && a.wc_commit_ids == b.wc_commit_ids
+}
+
+/// Executes one literal step in `dir` (in place).
+fn exec_step(env: &Env, dir: &Path, parent: Option<&StateData>, lit: &LitStep, stats: &Stats) -> StepOutcome {
     for e in &lit.edits {
         let p = dir.join(&e.ws).join(&e.path);
-        // the user replaces this file: a witness that is still only on disk is destroyed by the
-        // user, not by jj, and leaves the ghost set
-        ghosts.retain(|g| g.recorded || !(g.ws == e.ws && g.path == e.path));
         match &e.content {
             Some(c) => std::fs::write(&p, c).unwrap_or_else(|err| vcommon::machinery_failure(&format!("cannot write {p:?}: {err}"))),
             None => {
@@ -782,18 +866,7 @@ fn exec_step(env: &Env, dir: &Path, parent_ghosts: &[Ghost], parent_ws_state: &B
             }
         }
     }
-    // ghosts: every harness-written content that is on disk when the command starts
-    let mut pre_disk: BTreeMap<String, BTreeMap<String, Vec<u8>>> = BTreeMap::new();
-    for w in ws_dirs(dir) {
-        let files = disk_files(&dir.join(w));
-        for (p, c) in &files {
-            if c.starts_with(b"W:") && !ghosts.iter().any(|g| g.ws == w && g.path == *p && g.content == *c) {
-                ghosts.push(Ghost { ws: w.to_string(), path: p.clone(), content: c.clone(), since: lit.n, recorded: false });
-            }
-        }
-        pre_disk.insert(w.to_string(), files);
-    }
-    let out = env.run(&dir.join(&lit.cwd), lit.n, lit.config, &lit.args);
+    let out = env.run(&dir.join(&lit.cwd), lit.n, 0, &lit.args);
     stats.commands.fetch_add(1, Ordering::Relaxed);
     let ok = out.code == Some(0);
     if ok {
@@ -801,134 +874,232 @@ fn exec_step(env: &Env, dir: &Path, parent_ghosts: &[Ghost], parent_ws_state: &B
     } else {
         stats.exit_err.fetch_add(1, Ordering::Relaxed);
     }
-    if out.stderr.contains("working copy is stale") {
-        stats.stale_refusals.fetch_add(1, Ordering::Relaxed);
-    }
-    if out.code == Some(101) || out.code.is_none() {
-        stats.panics.fetch_add(1, Ordering::Relaxed);
-    }
-    if out.stderr.contains("Updated working copy to fresh commit") {
-        stats.stale_updates_done.fetch_add(1, Ordering::Relaxed);
-    }
-    if out.stderr.contains("Concurrent modification detected") {
-        stats.divergent_ops_merged.fetch_add(1, Ordering::Relaxed);
-    }
-    let acting_before = parent_ws_state.get(&lit.cwd).cloned().unwrap_or_else(|| "none".into());
-    if acting_before == "stale" {
-        stats.acting_ws_stale_before.fetch_add(1, Ordering::Relaxed);
-    }
-    if parent_ws_state.iter().any(|(w, st)| *w != lit.cwd && st == "stale") {
-        stats.other_ws_stale_before.fetch_add(1, Ordering::Relaxed);
-    }
-
-    // observe
     let mut violations = vec![];
     let repo_dir = dir.join("d/.jj/repo");
     let ins = if repo_dir.exists() { inspect(&repo_dir) } else { Inspect::default() };
-    for p in &ins.problems {
-        violations.push((
-            format!("C40/repo-unreadable/{}", lit.class),
-            format!("after `jj {}`: {p}", lit.args.join(" ")),
-        ));
+    if !ins.problems.is_empty() {
+        vcommon::machinery_failure(&format!("repository unreadable after jj {:?}: {:?}", lit.args, ins.problems));
     }
-    let recorded = ins.recorded();
-    let mut post_disk: BTreeMap<String, BTreeMap<String, Vec<u8>>> = BTreeMap::new();
-    for w in ws_dirs(dir) {
-        post_disk.insert(w.to_string(), disk_files(&dir.join(w)));
+    if ins.heads.len() > 1 {
+        vcommon::machinery_failure("more than one operation head in a sequential history");
     }
-    let mut overwritten = 0u64;
-    if ins.problems.is_empty() {
-        for g in ghosts.iter_mut() {
-            stats.ghost_checks.fetch_add(1, Ordering::Relaxed);
-            let on_disk = post_disk.get(&g.ws).and_then(|d| d.get(&g.path)) == Some(&g.content);
-            let rec = recorded.contains(&(g.path.clone(), g.content.clone()));
-            g.recorded = rec;
-            if rec {
-                stats.ghosts_recorded.fetch_add(1, Ordering::Relaxed);
-            } else if on_disk {
-                stats.ghosts_only_on_disk.fetch_add(1, Ordering::Relaxed);
+    let head = ins.heads.first().cloned();
+    // operations created by this command, oldest first
+    let mut chain: Vec<OperationId> = vec![];
+    let old_head = parent.and_then(|p| p.head.clone());
+    if let Some(h) = &head {
+        let mut cur = h.clone();
+        loop {
+            if Some(&cur) == old_head.as_ref() {
+                break;
             }
-            let was_on_disk = pre_disk.get(&g.ws).and_then(|d| d.get(&g.path)) == Some(&g.content);
-            if was_on_disk && !on_disk && rec {
-                overwritten += 1;
-            }
-            if !rec && !on_disk {
-                let rel = if g.ws == lit.cwd { "same-ws" } else { "other-ws" };
-                let st = parent_ws_state.get(&g.ws).cloned().unwrap_or_else(|| "none".into());
-                let now = match post_disk.get(&g.ws).and_then(|d| d.get(&g.path)) {
-                    Some(c) => format!("{:?}", String::from_utf8_lossy(c)),
-                    None => "absent".to_string(),
-                };
-                violations.push((
-                    format!("C40/lost/{}/{rel}/{st}", lit.class),
-                    format!(
-                        "{}/{} = {:?} was on disk when command #{} started; after `jj {}` (in {}, exit {:?}) the file is {now} and no \
-                         operation's working-copy commit contains that content. stderr: {}",
-                        g.ws,
-                        g.path,
-                        String::from_utf8_lossy(&g.content),
-                        g.since,
-                        lit.args.join(" "),
-                        lit.cwd,
-                        out.code,
-                        out.stderr.chars().take(400).collect::<String>()
-                    ),
-                ));
+            let Some(op) = ins.ops.get(&cur) else { break };
+            chain.push(cur.clone());
+            match op.parents.first() {
+                Some(p) if op.parents.len() == 1 => cur = p.clone(),
+                _ => break,
             }
         }
+        chain.reverse();
     }
-    stats.overwritten_but_recorded.fetch_add(overwritten, Ordering::Relaxed);
+    let mut done: Vec<OperationId> = parent.map(|p| p.done.clone()).unwrap_or_default();
+    let mut undone: Vec<OperationId> = parent.map(|p| p.undone.clone()).unwrap_or_default();
+    let view_of = |id: &OperationId| ins.ops.get(id).map(|o| &o.view);
+    let parent_of = |id: &OperationId| ins.ops.get(id).and_then(|o| if o.parents.len() == 1 { Some(o.parents[0].clone()) } else { None });
+    let ws_name = if lit.cwd == "s" { "s" } else { "default" };
+    let mut judged = false;
+    let mut really_changed = false;
+    let judge = lit.judge.as_str();
+    let is_undo_family = !judge.is_empty();
+    // the command's own operation is the last of the chain iff it succeeded and did something
+    let (snapshots, own): (Vec<OperationId>, Option<OperationId>) = if is_undo_family && ok && !chain.is_empty() {
+        let own = chain.last().cloned();
+        (chain[..chain.len() - 1].to_vec(), own)
+    } else if is_undo_family {
+        (chain.clone(), None)
+    } else {
+        (vec![], None)
+    };
+    if !is_undo_family {
+        // ordinary command: everything it created is "done"; nothing can be redone any more
+        if !chain.is_empty() {
+            done.extend(chain.iter().cloned());
+            undone.clear();
+        }
+    } else {
+        if !snapshots.is_empty() {
+            done.extend(snapshots.iter().cloned());
+            undone.clear();
+        }
+        // the operation the command's transaction started from
+        let base = snapshots.last().cloned().or(old_head.clone());
+        let mut expected: Option<(OperationId, &'static str)> = None; // (operation whose view is expected, clause)
+        let mut expect_failure = false;
+        match judge {
+            "undo" => match done.last().cloned() {
+                Some(t) => match parent_of(&t) {
+                    Some(p) => {
+                        if own.is_some() {
+                            done.pop();
+                            undone.push(t.clone());
+                            if undone.len() > 1 {
+                                stats.undo_after_undo.fetch_add(1, Ordering::Relaxed);
+                            }
+                        }
+                        expected = Some((p, "undo"));
+                    }
+                    None => expect_failure = true,
+                },
+                None => expect_failure = true,
+            },
+            "redo" => match undone.last().cloned() {
+                Some(r) => {
+                    if own.is_some() {
+                        undone.pop();
+                        done.push(r.clone());
+                    }
+                    expected = Some((r, "redo"));
+                }
+                None => expect_failure = true,
+            },
+            j if j.starts_with("op-restore:") => {
+                let k: usize = j["op-restore:".len()..].parse().unwrap();
+                let mut cur = base.clone();
+                for _ in 0..k {
+                    cur = cur.and_then(|c| parent_of(&c));
+                }
+                match cur {
+                    Some(x) => expected = Some((x, "op-restore")),
+                    None => expect_failure = true,
+                }
+                if let Some(o) = &own {
+                    done.push(o.clone());
+                    undone.clear();
+                }
+            }
+            j if j.starts_with("op-revert:") => {
+                let k: usize = j["op-revert:".len()..].parse().unwrap();
+                let mut cur = base.clone();
+                for _ in 0..k {
+                    cur = cur.and_then(|c| parent_of(&c));
+                }
+                match (cur.clone(), cur.and_then(|x| parent_of(&x))) {
+                    (Some(x), Some(px)) => {
+                        // judged only when nothing changed since X (always true for X = latest operation)
+                        let same = match (base.as_ref().and_then(|b| view_of(b)), view_of(&x)) {
+                            (Some(a), Some(b)) => view_eq_plainly(a, b),
+                            _ => false,
+                        };
+                        if same {
+                            expected = Some((px, if k == 0 { "op-revert-latest" } else { "op-revert-unchanged-since" }));
+                        } else if own.is_some() {
+                            stats.unjudged_revert_of_older_op.fetch_add(1, Ordering::Relaxed);
+                        }
+                    }
+                    _ => expect_failure = true,
+                }
+                if let Some(o) = &own {
+                    done.push(o.clone());
+                    undone.clear();
+                }
+            }
+            _ => {}
+        }
+        if let Some(o) = &own {
+            if expect_failure {
+                violations.push((
+                    format!("C41/{}/succeeded-with-nothing-to-{}", lit.class, if judge == "redo" { "redo" } else { "restore" }),
+                    format!("`jj {}` succeeded although the history has no operation it could apply to. stderr: {}", lit.args.join(" "), out.stderr),
+                ));
+            } else if let Some((x, clause)) = &expected {
+                let (Some(nv), Some(ev)) = (view_of(o), view_of(x)) else {
+                    vcommon::machinery_failure("view of an operation is missing from the inspection");
+                };
+                judged = true;
+                stats.judged.fetch_add(1, Ordering::Relaxed);
+                if !snapshots.is_empty() {
+                    stats.judged_with_own_snapshot.fetch_add(1, Ordering::Relaxed);
+                }
+                if *clause == "redo" {
+                    stats.redo_judged.fetch_add(1, Ordering::Relaxed);
+                }
+                if let Some(bv) = base.as_ref().and_then(|b| view_of(b))
+                    && !view_eq_plainly(bv, ev)
+                {
+                    really_changed = true;
+                    stats.restored_view_differs_from_current.fetch_add(1, Ordering::Relaxed);
+                }
+                let (diff, used) = compare_views(&ins, nv, ev, ws_name);
+                if used {
+                    stats.permitted_difference_used.fetch_add(1, Ordering::Relaxed);
+                }
+                if let Some((field, msg)) = diff {
+                    violations.push((
+                        format!("C41/{clause}/{field}"),
+                        format!(
+                            "after `jj {}` in {} the view of the new operation {} differs from the view of operation {} ({:?}) it should equal: {msg}",
+                            lit.args.join(" "),
+                            lit.cwd,
+                            &o.hex()[..12],
+                            &x.hex()[..12],
+                            ins.ops.get(x).map(|d| d.desc.clone()).unwrap_or_default()
+                        ),
+                    ));
+                }
+            }
+        } else if expect_failure {
+            stats.expected_failure_and_failed.fetch_add(1, Ordering::Relaxed);
+        } else if expected.is_some() {
+            stats.model_expected_success_but_failed.fetch_add(1, Ordering::Relaxed);
+        }
+    }
 
-    // bookkeeping for the successors + canonical key
-    let mut ws_state = BTreeMap::new();
+    // canonical key
     let mut cmemo = HashMap::new();
     let mut omemo = HashMap::new();
     let mut key = String::new();
     let mut hs: Vec<u64> = ins.heads.iter().map(|h| ins.op_hash(h, &mut cmemo, &mut omemo)).collect();
     hs.sort();
     key.push_str(&format!("ops{hs:x?}"));
-    let mut other_became_stale = 0;
     for w in ws_dirs(dir) {
         let (st, wc_op) = workspace_state(&dir.join(w), &ins);
-        if st == "stale" && w != lit.cwd && parent_ws_state.get(w).map(|x| x.as_str()) != Some("stale") {
-            other_became_stale = 1;
-        }
         let oh = wc_op.map(|o| ins.op_hash(&o, &mut cmemo, &mut omemo)).unwrap_or(0);
         key.push_str(&format!("|{w}:{st}:{oh:x}:"));
         let mut buf = vec![];
-        for (p, c) in post_disk.get(w).into_iter().flatten() {
+        for (p, c) in disk_files(&dir.join(w)) {
             buf.extend(p.as_bytes());
             buf.push(0);
             buf.extend(c);
             buf.push(1);
         }
         key.push_str(&format!("{:x}", vcommon::fnv(&buf)));
-        ws_state.insert(w.to_string(), st);
     }
+    // the undo/redo model is a function of the operation log, but keep it in the key explicitly
+    let dh: Vec<u64> = done.iter().map(|o| ins.op_hash(o, &mut cmemo, &mut omemo)).collect();
+    let uh: Vec<u64> = undone.iter().map(|o| ins.op_hash(o, &mut cmemo, &mut omemo)).collect();
+    key.push_str(&format!("|done{:x}|undone{:x}", vcommon::fnv(format!("{dh:?}").as_bytes()), vcommon::fnv(format!("{uh:?}").as_bytes())));
     {
         let mut pc = stats.per_class.lock().unwrap();
         let e = pc.entry(lit.class.clone()).or_insert([0; 4]);
         e[0] += 1;
         e[1] += ok as u64;
-        e[2] += overwritten;
-        e[3] += other_became_stale;
+        e[2] += judged as u64;
+        e[3] += really_changed as u64;
     }
     let has_s = dir.join("s/.jj").exists();
     StepOutcome {
         ok,
         stderr: out.stderr.clone(),
-        state: StateData { dir: dir.to_path_buf(), n: lit.n, has_s, ghosts, ws_state, key },
+        state: StateData { dir: dir.to_path_buf(), n: lit.n, has_s, head, done, undone, key },
         violations,
     }
 }
 
 struct Phase {
     name: &'static str,
-    /// 0 = S (one workspace), 1 = T (two workspaces), 2 = U (two workspaces, `s` stale)
     root: usize,
-    config: usize,
-    cmds: Vec<Cmd>,
-    patterns: Vec<u8>,
+    /// (workspace, command, dirty patterns)
+    acts: Vec<(u8, Cmd, Vec<u8>)>,
     depth: usize,
 }
 
@@ -937,52 +1108,43 @@ fn enabled(phase: &Phase, st: &StateData, depth_done: usize) -> Vec<Act> {
         return vec![];
     }
     let mut out = vec![];
-    for &dirty in &phase.patterns {
-        for ws in 0..2u8 {
-            if ws == 1 && !st.has_s {
-                continue;
-            }
-            for &cmd in &phase.cmds {
-                let cross = matches!(cmd, Cmd::XDescribe | Cmd::XAbandon | Cmd::XEdit | Cmd::XSquash);
-                if cross && !st.has_s {
-                    continue;
-                }
-                if cmd == Cmd::WsAdd && (st.has_s || ws != 0) {
-                    continue;
-                }
-                out.push(Act::Step { dirty, ws, cmd });
-            }
+    for (ws, cmd, pats) in &phase.acts {
+        if (*ws == 1 || *cmd == Cmd::XTag) && !st.has_s {
+            continue;
+        }
+        for &dirty in pats {
+            out.push(Act::Step { dirty, ws: *ws, cmd: *cmd });
         }
     }
     out
 }
 
 fn phases(thorough: bool) -> Vec<Phase> {
-    let single: Vec<Cmd> = FULL
-        .iter()
-        .copied()
-        .filter(|c| !matches!(c, Cmd::XDescribe | Cmd::XAbandon | Cmd::XEdit | Cmd::XSquash))
-        .collect();
+    // quick alphabet in `default`: base commands on a clean working copy, undo family clean and dirty
+    let mut core: Vec<(u8, Cmd, Vec<u8>)> = BASE.iter().map(|c| (0u8, *c, vec![0u8])).collect();
+    core.extend(UNDO_CORE.iter().map(|c| (0u8, *c, vec![0u8, 1u8])));
+    let mut full: Vec<(u8, Cmd, Vec<u8>)> = BASE.iter().map(|c| (0u8, *c, vec![0u8, 1u8])).collect();
+    full.extend(UNDO_FULL.iter().map(|c| (0u8, *c, vec![0u8, 1u8])));
+    // two workspaces: everything in `default` + tagging s@ from default + undo family and two base commands in `s`
+    let mut two: Vec<(u8, Cmd, Vec<u8>)> = core.clone();
+    two.push((0, Cmd::XTag, vec![0]));
+    two.extend(UNDO_CORE.iter().map(|c| (1u8, *c, vec![0u8, 1u8])));
+    two.push((1, Cmd::New, vec![0]));
+    two.push((1, Cmd::Describe, vec![1]));
     let mut v = vec![
-        Phase { name: "S:one-ws/full/P1/d1", root: 0, config: 0, cmds: single.clone(), patterns: vec![1], depth: 1 },
-        Phase { name: "U:two-ws-stale/core/P1/d1", root: 2, config: 0, cmds: CORE.to_vec(), patterns: vec![1], depth: 1 },
-        Phase { name: "T:two-ws/core/P1/d2", root: 1, config: 0, cmds: CORE.to_vec(), patterns: vec![1], depth: 2 },
+        Phase { name: "RU:after-undo/core/d1", root: 1, acts: core.clone(), depth: 1 },
+        Phase { name: "RUU:after-undo-undo/core/d1", root: 2, acts: core.clone(), depth: 1 },
+        Phase { name: "T:two-ws-immutable-wc/two/d1", root: 3, acts: two.clone(), depth: 1 },
+        Phase { name: "R:one-ws/core/d2", root: 0, acts: core.clone(), depth: 2 },
     ];
     if thorough {
-        v.push(Phase { name: "U:two-ws-stale/full/P0-P3/d1", root: 2, config: 0, cmds: FULL.to_vec(), patterns: vec![0, 1, 2, 3], depth: 1 });
-        v.push(Phase { name: "U:two-ws-stale/core/P1/d1/auto-update-stale", root: 2, config: 1, cmds: CORE.to_vec(), patterns: vec![1], depth: 1 });
-        v.push(Phase { name: "T:two-ws/full/P1/d2", root: 1, config: 0, cmds: FULL.to_vec(), patterns: vec![1], depth: 2 });
-        v.push(Phase { name: "U:two-ws-stale/core/P1/d2", root: 2, config: 0, cmds: CORE.to_vec(), patterns: vec![1], depth: 2 });
-        v.push(Phase { name: "T:two-ws/core/P1/d2/auto-update-stale", root: 1, config: 1, cmds: CORE.to_vec(), patterns: vec![1], depth: 2 });
-        v.push(Phase { name: "S:one-ws/full/P0P1/d2", root: 0, config: 0, cmds: FULL.to_vec(), patterns: vec![0, 1], depth: 2 });
-        v.push(Phase { name: "T:two-ws/core/P0-P3/d2", root: 1, config: 0, cmds: CORE.to_vec(), patterns: vec![0, 1, 2, 3], depth: 2 });
-        v.push(Phase { name: "T:two-ws/core/P1/d3", root: 1, config: 0, cmds: CORE.to_vec(), patterns: vec![1], depth: 3 });
+        v.push(Phase { name: "R:one-ws/full/d2", root: 0, acts: full.clone(), depth: 2 });
+        v.push(Phase { name: "RU:after-undo/core/d2", root: 1, acts: core.clone(), depth: 2 });
+        v.push(Phase { name: "RUU:after-undo-undo/core/d2", root: 2, acts: core.clone(), depth: 2 });
+        v.push(Phase { name: "T:two-ws-immutable-wc/two/d2", root: 3, acts: two.clone(), depth: 2 });
+        v.push(Phase { name: "R:one-ws/core/d3", root: 0, acts: core.clone(), depth: 3 });
     }
     v
-}
-
-fn root_name(root: usize) -> &'static str {
-    ["S: one workspace", "T: two workspaces", "U: two workspaces, s stale"][root]
 }
 
 fn fresh_dir(env: &Env) -> PathBuf {
@@ -990,36 +1152,29 @@ fn fresh_dir(env: &Env) -> PathBuf {
     env.root.join(format!("st/{}", N.fetch_add(1, Ordering::Relaxed)))
 }
 
-/// Builds a state from scratch: prepared root + the literal steps, oracle on every step.
+/// Builds a state from scratch: preparation script + the literal steps, oracle on every step.
 fn run_from_scratch(env: &Env, prep: &[LitStep], steps: &[LitStep], stats: &Stats) -> (StateData, Vec<(String, String)>) {
     let dir = fresh_dir(env);
     std::fs::create_dir_all(&dir).unwrap();
-    let mut ghosts = vec![];
-    let mut ws_state = BTreeMap::new();
     let mut violations = vec![];
-    let mut last = None;
+    let mut last: Option<StateData> = None;
     for (i, lit) in prep.iter().chain(steps.iter()).enumerate() {
-        let o = exec_step(env, &dir, &ghosts, &ws_state, lit, stats);
+        let o = exec_step(env, &dir, last.as_ref(), lit, stats);
         if i < prep.len() && !o.ok {
             vcommon::machinery_failure(&format!("preparation command jj {:?} failed: {}", lit.args, o.stderr));
         }
-        if i < prep.len() && !o.violations.is_empty() {
-            vcommon::machinery_failure(&format!("oracle fails during root preparation: {:?}", o.violations));
-        }
         violations.extend(o.violations);
-        ghosts = o.state.ghosts.clone();
-        ws_state = o.state.ws_state.clone();
         last = Some(o.state);
     }
     (last.unwrap(), violations)
 }
 
-fn case_json(phase: &Phase, prep: &[LitStep], steps: &[LitStep]) -> Value {
-    json!({ "phase": phase.name, "prep": prep, "steps": steps })
+fn case_json(phase: &str, prep: &[LitStep], steps: &[LitStep]) -> Value {
+    json!({ "phase": phase, "prep": prep, "steps": steps })
 }
 
 fn main() {
-    let ctx = Ctx::from_args("C40", Level::ModelChecking);
+    let ctx = Ctx::from_args("C41", Level::ModelChecking);
     vcommon::silence_panics();
     let jjv = std::env::var("JJV_BIN")
         .map(PathBuf::from)
@@ -1056,36 +1211,31 @@ fn main() {
     let states: Mutex<HashMap<Vec<Act>, Arc<StateData>>> = Mutex::new(HashMap::new());
     let lits: Mutex<HashMap<Vec<Act>, Vec<LitStep>>> = Mutex::new(HashMap::new());
     let samples = vcommon::Samples::new(6);
-    let nontrivial = AtomicU64::new(0);
     let max_depth = phases.iter().map(|p| p.depth).max().unwrap() + 1;
-    // determinism gate: fixed histories that a separate thread rebuilds from scratch while the
-    // search runs; the search records the key it reached for the same histories
     let gate_histories: Vec<Vec<Act>> = vec![
         vec![Act::Init(0), Act::Step { dirty: 1, ws: 0, cmd: Cmd::Undo }],
-        vec![Act::Init(1), Act::Step { dirty: 1, ws: 1, cmd: Cmd::UpdateStale }],
-        vec![Act::Init(2), Act::Step { dirty: 1, ws: 0, cmd: Cmd::XEdit }, Act::Step { dirty: 1, ws: 1, cmd: Cmd::Undo }],
+        vec![Act::Init(2), Act::Step { dirty: 1, ws: 1, cmd: Cmd::OpRestore(1) }],
+        vec![Act::Init(3), Act::Step { dirty: 0, ws: 0, cmd: Cmd::Abandon }, Act::Step { dirty: 1, ws: 0, cmd: Cmd::Undo }],
     ];
     let gate_seen: Mutex<HashMap<Vec<Act>, String>> = Mutex::new(HashMap::new());
-    // per action label: (runs, runs that changed the canonical state)
     let changed: Mutex<BTreeMap<String, (u64, u64)>> = Mutex::new(BTreeMap::new());
 
-    // prepared roots (in parallel; every phase starts from a copy-on-use root directory)
-    let mut root_kinds: Vec<(usize, usize)> = phases.iter().map(|p| (p.root, p.config)).collect();
+    let mut root_kinds: Vec<usize> = phases.iter().map(|p| p.root).collect();
     root_kinds.sort();
     root_kinds.dedup();
-    let roots: HashMap<(usize, usize), Arc<StateData>> = {
+    let roots: HashMap<usize, Arc<StateData>> = {
         use rayon::prelude::*;
         root_kinds
             .par_iter()
-            .map(|&(root, config)| {
-                let (st, _) = run_from_scratch(&env, &prep_steps(root, config), &[], &stats);
-                ((root, config), Arc::new(st))
+            .map(|&root| {
+                let (st, viol) = run_from_scratch(&env, &prep_steps(root), &[], &stats);
+                for (sig, msg) in viol {
+                    ctx.violation(&sig, msg, case_json("preparation", &prep_steps(root), &[]));
+                }
+                (root, Arc::new(st))
             })
             .collect()
     };
-    if roots[&(root_kinds.iter().find(|k| k.0 == 2).copied().unwrap_or((2, 0)))].ws_state.get("s").map(|x| x.as_str()) != Some("stale") {
-        vcommon::machinery_failure("root U: workspace s is not stale after the preparation script");
-    }
     let prep_commands = stats.commands.load(Ordering::Relaxed);
 
     let step = |h: &[Act]| -> Option<bfs::StepResult<Act>> {
@@ -1095,7 +1245,7 @@ fn main() {
         let Act::Init(pi) = h[0] else { unreachable!() };
         let phase = &phases[pi];
         if h.len() == 1 {
-            let st = roots[&(phase.root, phase.config)].clone();
+            let st = roots[&phase.root].clone();
             let acts = enabled(phase, &st, 0);
             let key = format!("{}|{}", phase.name, st.key);
             states.lock().unwrap().insert(h.to_vec(), st);
@@ -1112,22 +1262,18 @@ fn main() {
         let parent = parent.unwrap_or_else(|| vcommon::machinery_failure("parent state of a BFS history is missing"));
         let mut steps = lits.lock().unwrap().get(parent_h).cloned().unwrap();
         let Act::Step { dirty, ws, cmd } = h[h.len() - 1].clone() else { unreachable!() };
-        let lit = expand(dirty, ws, cmd, parent.n + 1, parent.has_s, phase.config);
+        let lit = expand(dirty, ws, cmd, parent.n + 1, parent.has_s);
         let dir = fresh_dir(&env);
         copy_tree(&parent.dir, &dir);
-        let o = exec_step(&env, &dir, &parent.ghosts, &parent.ws_state, &lit, &stats);
+        let o = exec_step(&env, &dir, Some(&parent), &lit, &stats);
         steps.push(lit);
         if !o.violations.is_empty() {
-            let prep = prep_steps(phase.root, phase.config);
+            let prep = prep_steps(phase.root);
             for (sig, msg) in &o.violations {
-                ctx.violation(sig, msg.clone(), case_json(phase, &prep, &steps));
+                ctx.violation(sig, msg.clone(), case_json(phase.name, &prep, &steps));
             }
         }
-        // non-trivial: the command started with at least one witness on disk that no operation had recorded yet
-        if !o.state.ghosts.is_empty() {
-            nontrivial.fetch_add(1, Ordering::Relaxed);
-        }
-        if h.len() == phase.depth + 1 {
+        if h.len() == phase.depth + 1 && cmd.undo_family() {
             samples.offer(|| json!({"phase": phase.name, "steps": steps.iter().map(|l| json!({"in": l.cwd, "edits": l.edits, "jj": l.args})).collect::<Vec<_>>()}));
         }
         let acts = enabled(phase, &o.state, h.len() - 1);
@@ -1142,7 +1288,6 @@ fn main() {
             gate_seen.lock().unwrap().insert(h.to_vec(), o.state.key.clone());
         }
         if acts.is_empty() {
-            // leaf: nothing will be built on it
             let _ = std::fs::remove_dir_all(&o.state.dir);
         } else {
             states.lock().unwrap().insert(h.to_vec(), Arc::new(o.state));
@@ -1164,11 +1309,12 @@ fn main() {
                     let Act::Init(pi) = h[0] else { unreachable!() };
                     let phase = &phases[pi];
                     let scratch_stats = Stats::default();
-                    let (mut st, _) = run_from_scratch(&env, &prep_steps(phase.root, phase.config), &[], &scratch_stats);
+                    let (mut st, _) = run_from_scratch(&env, &prep_steps(phase.root), &[], &scratch_stats);
                     for a in &h[1..] {
                         let Act::Step { dirty, ws, cmd } = a.clone() else { unreachable!() };
-                        let lit = expand(dirty, ws, cmd, st.n + 1, st.has_s, phase.config);
-                        let o = exec_step(&env, &st.dir.clone(), &st.ghosts, &st.ws_state, &lit, &scratch_stats);
+                        let lit = expand(dirty, ws, cmd, st.n + 1, st.has_s);
+                        let dir = st.dir.clone();
+                        let o = exec_step(&env, &dir, Some(&st), &lit, &scratch_stats);
                         st = o.state;
                     }
                     (h.clone(), st.key)
@@ -1194,71 +1340,78 @@ fn main() {
     }
 
     // vacuity
-    let per_class = stats.per_class.lock().unwrap().clone();
-    let never_new: Vec<String> =
+    let never_changed: Vec<String> =
         changed.lock().unwrap().iter().filter(|(_, (n, c))| *n > 0 && *c == 0).map(|(l, _)| l.clone()).collect();
+    let ld = |c: &AtomicU64| c.load(Ordering::Relaxed);
     if !capped.load(Ordering::Relaxed) {
-        if !never_new.is_empty() {
-            vcommon::machinery_failure(&format!("vacuous: actions that never changed the state: {never_new:?}"));
+        if !never_changed.is_empty() {
+            vcommon::machinery_failure(&format!("vacuous: actions that never changed the state: {never_changed:?}"));
         }
-        if stats.overwritten_but_recorded.load(Ordering::Relaxed) == 0
-            || stats.acting_ws_stale_before.load(Ordering::Relaxed) == 0
-            || stats.stale_updates_done.load(Ordering::Relaxed) == 0
+        if ld(&stats.restored_view_differs_from_current) == 0
+            || ld(&stats.redo_judged) == 0
+            || ld(&stats.permitted_difference_used) == 0
+            || ld(&stats.judged_with_own_snapshot) == 0
         {
-            vcommon::machinery_failure("vacuous: no command ever replaced an unsnapshotted file / no stale workspace was ever recovered");
+            vcommon::machinery_failure("vacuous: an oracle clause was never exercised (restore that changes the view / redo / immutable working-copy exception / undo after own snapshot)");
         }
     }
-
+    let per_class = stats.per_class.lock().unwrap().clone();
     let mut extra: BTreeMap<String, Value> = BTreeMap::new();
-    extra.insert("phases".into(), json!(phases.iter().map(|p| json!({"name": p.name, "root": root_name(p.root), "commands": p.cmds.iter().map(|c| format!("{c:?}")).collect::<Vec<_>>(), "dirty_patterns": p.patterns, "depth_in_commands": p.depth, "auto_update_stale": p.config == 1})).collect::<Vec<_>>()));
-    extra.insert("jj_commands_executed".into(), json!(stats.commands.load(Ordering::Relaxed)));
+    extra.insert(
+        "phases".into(),
+        json!(phases
+            .iter()
+            .map(|p| json!({"name": p.name, "root": root_name(p.root), "depth_in_commands": p.depth,
+                "actions": p.acts.iter().map(|(ws, c, pats)| format!("{c:?}@{} dirty{pats:?}", WS_DIR[*ws as usize])).collect::<Vec<_>>()}))
+            .collect::<Vec<_>>()),
+    );
+    extra.insert("jj_commands_executed".into(), json!(ld(&stats.commands)));
     extra.insert("jj_commands_for_root_preparation".into(), json!(prep_commands));
-    extra.insert("commands_exit_0".into(), json!(stats.exit_ok.load(Ordering::Relaxed)));
-    extra.insert("commands_exit_nonzero".into(), json!(stats.exit_err.load(Ordering::Relaxed)));
-    extra.insert("refused_because_stale".into(), json!(stats.stale_refusals.load(Ordering::Relaxed)));
-    extra.insert("jj_panics_or_signals".into(), json!(stats.panics.load(Ordering::Relaxed)));
-    extra.insert("ghost_checks".into(), json!(stats.ghost_checks.load(Ordering::Relaxed)));
-    extra.insert("ghosts_found_in_op_log".into(), json!(stats.ghosts_recorded.load(Ordering::Relaxed)));
-    extra.insert("ghosts_unrecorded_but_still_on_disk".into(), json!(stats.ghosts_only_on_disk.load(Ordering::Relaxed)));
-    extra.insert("witness_replaced_on_disk_and_found_in_op_log".into(), json!(stats.overwritten_but_recorded.load(Ordering::Relaxed)));
-    extra.insert("commands_started_in_a_stale_workspace".into(), json!(stats.acting_ws_stale_before.load(Ordering::Relaxed)));
-    extra.insert("commands_started_while_other_workspace_stale".into(), json!(stats.other_ws_stale_before.load(Ordering::Relaxed)));
-    extra.insert("stale_working_copies_updated".into(), json!(stats.stale_updates_done.load(Ordering::Relaxed)));
-    extra.insert("divergent_operations_merged".into(), json!(stats.divergent_ops_merged.load(Ordering::Relaxed)));
+    extra.insert("commands_exit_0".into(), json!(ld(&stats.exit_ok)));
+    extra.insert("commands_exit_nonzero".into(), json!(ld(&stats.exit_err)));
+    extra.insert("undo_family_transitions_judged".into(), json!(ld(&stats.judged)));
+    extra.insert("judged_where_the_command_first_snapshotted_a_dirty_working_copy".into(), json!(ld(&stats.judged_with_own_snapshot)));
+    extra.insert("judged_where_expected_view_differs_from_the_view_before".into(), json!(ld(&stats.restored_view_differs_from_current)));
+    extra.insert("redo_judged".into(), json!(ld(&stats.redo_judged)));
+    extra.insert("undo_while_something_was_already_undone".into(), json!(ld(&stats.undo_after_undo)));
+    extra.insert("permitted_immutable_working_copy_difference_used".into(), json!(ld(&stats.permitted_difference_used)));
+    extra.insert("op_revert_of_older_operation_not_judged".into(), json!(ld(&stats.unjudged_revert_of_older_op)));
+    extra.insert("model_expected_failure_and_jj_failed".into(), json!(ld(&stats.expected_failure_and_failed)));
+    extra.insert("model_expected_success_but_jj_failed".into(), json!(ld(&stats.model_expected_success_but_failed)));
     extra.insert(
         "per_command_class".into(),
-        json!(per_class.iter().map(|(k, v)| (k.clone(), json!({"runs": v[0], "exit_0": v[1], "witness_replaced_and_recorded": v[2], "made_other_workspace_stale": v[3]}))).collect::<BTreeMap<_, _>>()),
+        json!(per_class.iter().map(|(k, v)| (k.clone(), json!({"runs": v[0], "exit_0": v[1], "judged": v[2], "judged_and_view_changed": v[3]}))).collect::<BTreeMap<_, _>>()),
+    );
+    extra.insert(
+        "per_action_runs_and_state_changes".into(),
+        json!(changed.lock().unwrap().iter().map(|(k, v)| (k.clone(), json!([v.0, v.1]))).collect::<BTreeMap<_, _>>()),
     );
     extra.insert("per_depth_new_states".into(), json!(st.per_depth_states));
     extra.insert("max_depth_completed_incl_root_level".into(), json!(st.max_depth_completed));
     extra.insert("wall_cap_s".into(), json!(wall_cap));
     extra.insert("transitions_skipped_by_wall_cap".into(), json!(skipped.load(Ordering::Relaxed)));
     extra.insert("determinism_gate_histories_rebuilt_from_scratch".into(), json!(gate_checked));
-    extra.insert("actions_that_never_changed_the_state".into(), json!(never_new));
-    extra.insert(
-        "per_action_runs_and_state_changes".into(),
-        json!(changed.lock().unwrap().iter().map(|(k, v)| (k.clone(), json!([v.0, v.1]))).collect::<BTreeMap<_, _>>()),
-    );
-    let exhaustive = !capped.load(Ordering::Relaxed);
+    extra.insert("actions_that_never_changed_the_state".into(), json!(never_changed));
     let cov = Coverage {
         evaluations: st.transitions,
-        distinct_nontrivial: nontrivial.load(Ordering::Relaxed),
-        rule: "every sequence of (dirty pattern, workspace, command) actions of each phase up to the phase's depth, from a prepared \
-               root (one or two workspaces); one evaluation = one transition = copy of the parent directory + edits + one real jj \
-               command + the ghost oracle over the whole history; non-trivial = transitions whose history has at least one witness \
-               file content that was on disk when some command started"
+        distinct_nontrivial: ld(&stats.restored_view_differs_from_current),
+        rule: "every sequence of (dirty pattern, workspace, command) actions of each phase up to the phase's depth from a prepared \
+               root; one evaluation = one transition = copy of the parent directory + edits + one real jj command; every successful \
+               undo / redo / op restore / op revert transition is judged by comparing the view of the new operation with the view of \
+               the operation named by the text-editor model (read through jj-lib); non-trivial = judged transitions whose expected \
+               view differs from the view before the command"
             .into(),
         samples: samples.take(),
-        exhaustive,
+        exhaustive: !capped.load(Ordering::Relaxed),
         states: Some(st.states),
         transitions: Some(st.transitions),
         traces_validated_against_impl: Some(st.transitions),
         extra,
         assumptions: vec![
-            "commands run one at a time (no concurrent jj processes; that is C14)".into(),
-            "a file state counts as recorded when some working-copy commit of some operation reachable from the operation heads has it at the same path (any term of a conflict)".into(),
-            "only contents written by the harness are tracked; contents written by jj's own checkout come from stored commits".into(),
-            "git backend, non-colocated; fsmonitor off; default auto-track and max-new-file-size".into(),
+            "sequential commands, one operation head".into(),
+            "compared: visible heads, local bookmarks, local tags, remote views, working-copy commit ids; git_refs/git_heads are not part of the statement".into(),
+            "immutable = ancestors of tags and the root commit (default immutable_heads() in a repository without remotes)".into(),
+            "op revert is judged only when nothing changed since the reverted operation (then it must equal undoing it); reverting an older operation is a three-way merge the statement does not describe".into(),
         ],
     };
     ctx.finish(cov);
